@@ -190,6 +190,7 @@ inductive Ev where
   | streamClosed
   | access (status : Nat)
   | spawnPings
+  | spawnClose                          -- `task_group.spawn(self.send, StreamClosed(...))` after the stream's own error response
 deriving Repr, DecidableEq
 
 inductive AppMsg where
@@ -272,7 +273,7 @@ def appSend (token : Bytes → Bytes) (extAccepts : Option Bytes) (s : S) : Opti
     if s.closed then (s, [], none)
     else match m with
     | none =>
-      if s.st = .handshake then (s, errorResponse 500 ++ [.access 500, .streamClosed], none)
+      if s.st = .handshake then (s, errorResponse 500 ++ [.streamClosed], none)      -- `_send_error_response` records the access
       else if s.st = .connected then
         let (s1, e, err) := sendWs s (.close 1011)
         match err with
@@ -373,7 +374,10 @@ def handle (s : S) : In → S × List AppMsg × List Ev × Option PyErr
         if !s.hs.accepted then
           -- answered (400) only while nothing has been sent for the handshake; once a rejection has been started or
           -- sent the data is ignored (a second response would be refused by h11: F40)
-          if s.st = .handshake then ({ s with closed := true }, [], errorResponse 400, none) else (s, [], [], none)
+          -- `_close_after_error`: closed, the waiting application is sent the disconnect, StreamClosed is spawned
+          if s.st = .handshake then
+            ({ s with closed := true }, if s.hasAppPut then [.disconnect 1006] else [], errorResponse 400 ++ [.spawnClose], none)
+          else (s, [], [], none)
         else handleEvents s evs
       | .streamClosed =>
         let code := if s.st = .httpClosed ∨ s.st = .closed then 1000 else s.clientCloseCode.getD 1006
@@ -384,10 +388,10 @@ def onRequest (maxLen : Nat) (version : String) (headers : Headers) (serverNameO
     Except PyErr (S × List AppMsg × List Ev) := do
   let hs ← Handshake.ofRequest version headers
   let s : S := { hs := hs, buffer := { maxLength := maxLen }, pingInterval := pingInterval }
-  if !serverNameOk then pure ({ s with closed := true }, [], errorResponse 404)
+  if !serverNameOk then pure ({ s with closed := true }, [], errorResponse 404 ++ [.spawnClose])
   else
     let v ← hs.isValid
-    if !v then pure ({ s with closed := true }, [], errorResponse 400)
+    if !v then pure ({ s with closed := true }, [], errorResponse 400 ++ [.spawnClose])
     else pure ({ s with hasAppPut := true }, [.connect], [])
 
 end HC.Stream.Ws
